@@ -55,11 +55,13 @@ var c07Starts = map[string][]string{
 		return
 	}(),
 	"mixed-subnets": {"foundlive:A.1.a", "foundlive:B.1.a", "foundlive:P.1.d"},
-	"four-fails":    {"foundlive:A.1.a", "foundlive:F0", "foundlive:F1", "foundlive:F2", "track:A:fail", "track:A:fail", "track:A:fail", "track:A:fail"},
-	"credit-four":   {"foundlive:A.1.a", "found:B.1.a", "tick:0", "ans:A:alive", "tick:0,0", "ans:A:alive", "ans:B:alive", "tick:0,0", "ans:A:alive"},
+	// a liveness check of A is under way: the entry may leave and come back before the answer arrives
+	"ping-in-flight": {"foundlive:A.1.a", "foundlive:B.1.a", "tick:0"},
+	"four-fails":     {"foundlive:A.1.a", "foundlive:F0", "foundlive:F1", "foundlive:F2", "track:A:fail", "track:A:fail", "track:A:fail", "track:A:fail"},
+	"credit-four":    {"foundlive:A.1.a", "found:B.1.a", "tick:0", "ans:A:alive", "tick:0,0", "ans:A:alive", "ans:B:alive", "tick:0,0", "ans:A:alive"},
 }
 
-var c07StartOrder = []string{"empty", "full256", "almost-full", "ip-limit-minus-one", "four-fails", "credit-four", "mixed-subnets"}
+var c07StartOrder = []string{"empty", "full256", "almost-full", "ip-limit-minus-one", "four-fails", "credit-four", "mixed-subnets", "ping-in-flight"}
 
 func c07Pool(start string, thorough bool) (recs, ids []string, kinds []string) {
 	recs = []string{"A.1.a", "A.2.a", "A.2.b", "B.1.a", "X.1.b", "C.1.d", "D.1.a", "D.2.l"}
@@ -84,17 +86,23 @@ func c07Pool(start string, thorough bool) (recs, ids []string, kinds []string) {
 }
 
 type c07Obs struct {
-	snap    portalwire.VSnap
-	pending []string
-	fails   map[string]int
-	loopErr string
+	snap      portalwire.VSnap
+	pending   []string
+	pendingAt map[enode.ID]time.Time // start of every liveness check under way
+	fails     map[string]int
+	loopErr   string
 }
 
 func (t *tabEnv) observe(ids []string) c07Obs {
 	if t.loopErr != "" { // the loop died, possibly with the table's mutex held: nothing can be read any more
 		return c07Obs{fails: map[string]int{}, loopErr: t.loopErr}
 	}
-	o := c07Obs{snap: t.vt.Snapshot(), pending: t.pendingIDs(), fails: map[string]int{}, loopErr: t.loopErr}
+	o := c07Obs{snap: t.vt.Snapshot(), pending: t.pendingIDs(), pendingAt: map[enode.ID]time.Time{}, fails: map[string]int{}, loopErr: t.loopErr}
+	t.mu.Lock()
+	for id, req := range t.pending {
+		o.pendingAt[id] = req.at
+	}
+	t.mu.Unlock()
 	for _, id := range ids {
 		if !strings.HasPrefix(id, "F") && !strings.HasPrefix(id, "G") {
 			o.fails[id] = t.fails(id)
@@ -333,7 +341,12 @@ func c18Transition(t *tabEnv, prev, next c07Obs, ev string, viol func(clause, si
 		case kind == "del" && id == subject:
 			ok = true
 		case kind == "ans" && id == subject && parts[2] == "dead":
+			// ... of a check of THIS entry: a check started before the entry was (re-)added was
+			// a check of an entry that has left since, and says nothing about this one
 			ok = true
+			if at, known := prev.pendingAt[id]; known && pe.Added.After(at) {
+				ok = false
+			}
 		case kind == "track" && id == subject && parts[2] == "fail" && prev.fails[parts[1]]+1 >= portalwire.VMaxFindFails && len(p.byB[bIdx].Entries) >= portalwire.VBucketSize/4:
 			ok = true
 		}
